@@ -32,6 +32,7 @@ func main() {
 	variant := flag.String("variant", "", "internal (thorough tier): apply this unified diff in memory before analysing; evidence goes to a scratch directory")
 	writeBase := flag.Bool("write-baseline", false, "maintenance: write baseline_funcs.txt (function inventory of the reference tree) into -verif")
 	dumpView := flag.String("view", "", "debug (with -dump): inline-new | inline-pkg")
+	usubPkg := flag.String("usub-scan", "", "exploration: list unsigned subtractions without a dominating ordering test in packages with this module-relative prefix")
 	flag.Parse()
 	if *variant != "" {
 		ov, err := buildOverlay(*repo, *variant)
@@ -84,7 +85,7 @@ func main() {
 		sort.Strings(ids)
 	}
 	for _, id := range ids {
-		if *dump != "" || *writeBase {
+		if *dump != "" || *writeBase || *usubPkg != "" {
 			break
 		}
 		if registry[id] == nil {
@@ -103,6 +104,25 @@ func main() {
 		if err := writeBaseline(c, *verif); err != nil {
 			fmt.Println("MACHINERY-FAILURE:", err)
 			os.Exit(2)
+		}
+		return
+	}
+	if *usubPkg != "" {
+		for f := range c.allFuncs() {
+			p := f.Pkg
+			g := f
+			for p == nil && g.Parent() != nil {
+				g = g.Parent()
+				p = g.Pkg
+			}
+			if p == nil || !strings.HasPrefix(trimMod(p.Pkg.Path()), *usubPkg) || len(f.Blocks) == 0 {
+				continue
+			}
+			for _, s := range usubScan(f) {
+				if !s.OK {
+					fmt.Printf("%s: %s - %s at %s\n", fname(f), term(s.Op.X), term(s.Op.Y), c.Pos(s.Op.Pos()))
+				}
+			}
 		}
 		return
 	}
